@@ -9,7 +9,7 @@ CONSTANTS
   Track = TRUE
 VIEW view
 INVARIANTS TypeOK Refines IterOK NoOrphan
-PROPERTIES MigrateOK DestroyOK Tombstoned
+PROPERTIES MigrateOK DestroyOK Tombstoned MarkedDead RefusedNoop
 CONSTRAINT InitOut
 ACTION_CONSTRAINT Edge
 CHECK_DEADLOCK FALSE
